@@ -125,7 +125,7 @@ def cases(tier, seed):
     for i in range(0, n3, 7 if tier == "quick" else 1):
         out.append({"k": "u3", "i": i})
     for shape in [(2,), (1, 3), (2, 2), (2, 1, 3), (1,)]:
-        for var in ("canon", "T", "zeroterm"):
+        for var in ("canon", "T", "zeroterm", "rev"):
             if var == "T" and len(shape) < 2:
                 continue
             out.append({"k": "arrays", "s": list(shape), "v": var})
